@@ -275,6 +275,54 @@ func c10Workflow(rt *rapid.T, repo string, allRepos []string, hasConfig bool, id
 	return b.String(), feats
 }
 
+// genC10World draws a multi-repository world with an argument list.
+func genC10World(rt *rapid.T) (*c10Case, []string) {
+	var allFeats []string
+	c := &c10Case{Files: map[string]string{}}
+	nrepos := rapid.IntRange(1, 3).Draw(rt, "nrepos")
+	pool := rapid.SampledFrom([][]string{{"repo", "repo2", "repo-x"}, {"a/repo", "a/repo2", "b"}, {"proj", "project", "proj/sub"}, {"x", "y", "z"}}).Draw(rt, "names")
+	c.Repos = append(c.Repos, pool[:nrepos]...)
+	var allFiles []string
+	for _, repo := range c.Repos {
+		R := strings.ToUpper(strings.NewReplacer("-", "_", "/", "_").Replace(repo))
+		hasConfig := rapid.IntRange(0, 3).Draw(rt, "hascfg") > 0
+		if hasConfig {
+			c.Files[repo+"/.github/actionlint.yaml"] = fmt.Sprintf("self-hosted-runner:\n  labels:\n    - lab-%s\n    - zeta\n    - alpha\nconfig-variables:\n  - VAR_%s\n  - ZED\n  - ABLE\n", strings.ReplaceAll(repo, "/", "-"), R)
+		}
+		c.Files[repo+"/act/action.yml"] = fmt.Sprintf("name: act\ndescription: d\ninputs:\n  in_%s:\n    description: d\n    required: true\noutputs:\n  out_%s:\n    description: d\nruns:\n  using: node20\n  main: index.js\n", strings.ToLower(R), strings.ToLower(R))
+		c.Files[repo+"/act/index.js"] = ""
+		callee := repo + "/.github/workflows/callee.yml"
+		c.Files[callee] = fmt.Sprintf("on:\n  workflow_call:\n    inputs:\n      p_%s:\n        type: string\n        required: true\n    outputs:\n      o_%s:\n        value: x\njobs:\n  a:\n    runs-on: ubuntu-latest\n    steps:\n      - run: echo ${{ inputs.p_%s }}\n", strings.ToLower(R), strings.ToLower(R), strings.ToLower(R))
+		allFiles = append(allFiles, callee)
+		nw := rapid.IntRange(1, 4).Draw(rt, "nw")
+		for i := 0; i < nw; i++ {
+			p := fmt.Sprintf("%s/.github/workflows/w%d.yml", repo, i)
+			src, feats := c10Workflow(rt, repo, c.Repos, hasConfig, i)
+			c.Files[p] = src
+			allFiles = append(allFiles, p)
+			allFeats = append(allFeats, feats...)
+		}
+	}
+	if rapid.IntRange(0, 3).Draw(rt, "loose") == 0 {
+		for i := 0; i < rapid.IntRange(1, 2).Draw(rt, "nloose"); i++ {
+			p := fmt.Sprintf("loose/w%d.yml", i)
+			c.Files[p] = "on: push\njobs:\n  a:\n    runs-on: zz-unknown\n    steps:\n      - run: echo ${{ github.nosuch }}\n  b:\n    uses: ./x.yml\n"
+			allFiles = append(allFiles, p)
+		}
+	}
+	// arguments
+	perm := rapid.Permutation(allFiles).Draw(rt, "order")
+	k := rapid.IntRange(2, min(len(perm), 10)).Draw(rt, "nargs")
+	c.Args = perm[:k]
+	for range c.Args {
+		c.Spell = append(c.Spell, rapid.SampledFrom([]string{"rel", "rel", "dot", "abs", "abs-dotdot", "rel-dotdot"}).Draw(rt, "spell"))
+	}
+	c.Cwd = rapid.SampledFrom(append([]string{"", ""}, c.Repos...)).Draw(rt, "cwd")
+	c.Procs = rapid.SampledFrom([]int{1, 2, 4, 16}).Draw(rt, "procs")
+	c.Repeats = 2
+	return c, allFeats
+}
+
 func TestC10(t *testing.T) {
 	race := os.Getenv("VERIF_RACE") != ""
 	hx.Main(t, "C10", func(r *hx.Run) {
@@ -339,50 +387,10 @@ func TestC10(t *testing.T) {
 			})
 		}
 		r.Check(t, "worlds", n, func(rt *rapid.T) {
-			c := &c10Case{Files: map[string]string{}}
-			nrepos := rapid.IntRange(1, 3).Draw(rt, "nrepos")
-			pool := rapid.SampledFrom([][]string{{"repo", "repo2", "repo-x"}, {"a/repo", "a/repo2", "b"}, {"proj", "project", "proj/sub"}, {"x", "y", "z"}}).Draw(rt, "names")
-			c.Repos = append(c.Repos, pool[:nrepos]...)
-			var allFiles []string
-			for _, repo := range c.Repos {
-				R := strings.ToUpper(strings.NewReplacer("-", "_", "/", "_").Replace(repo))
-				hasConfig := rapid.IntRange(0, 3).Draw(rt, "hascfg") > 0
-				if hasConfig {
-					c.Files[repo+"/.github/actionlint.yaml"] = fmt.Sprintf("self-hosted-runner:\n  labels:\n    - lab-%s\n    - zeta\n    - alpha\nconfig-variables:\n  - VAR_%s\n  - ZED\n  - ABLE\n", strings.ReplaceAll(repo, "/", "-"), R)
-				}
-				c.Files[repo+"/act/action.yml"] = fmt.Sprintf("name: act\ndescription: d\ninputs:\n  in_%s:\n    description: d\n    required: true\noutputs:\n  out_%s:\n    description: d\nruns:\n  using: node20\n  main: index.js\n", strings.ToLower(R), strings.ToLower(R))
-				c.Files[repo+"/act/index.js"] = ""
-				callee := repo + "/.github/workflows/callee.yml"
-				c.Files[callee] = fmt.Sprintf("on:\n  workflow_call:\n    inputs:\n      p_%s:\n        type: string\n        required: true\n    outputs:\n      o_%s:\n        value: x\njobs:\n  a:\n    runs-on: ubuntu-latest\n    steps:\n      - run: echo ${{ inputs.p_%s }}\n", strings.ToLower(R), strings.ToLower(R), strings.ToLower(R))
-				allFiles = append(allFiles, callee)
-				nw := rapid.IntRange(1, 4).Draw(rt, "nw")
-				for i := 0; i < nw; i++ {
-					p := fmt.Sprintf("%s/.github/workflows/w%d.yml", repo, i)
-					src, feats := c10Workflow(rt, repo, c.Repos, hasConfig, i)
-					c.Files[p] = src
-					allFiles = append(allFiles, p)
-					for _, f := range feats {
-						r.Class("feature/" + f)
-					}
-				}
+			c, feats := genC10World(rt)
+			for _, f := range feats {
+				r.Class("feature/" + f)
 			}
-			if rapid.IntRange(0, 3).Draw(rt, "loose") == 0 {
-				for i := 0; i < rapid.IntRange(1, 2).Draw(rt, "nloose"); i++ {
-					p := fmt.Sprintf("loose/w%d.yml", i)
-					c.Files[p] = "on: push\njobs:\n  a:\n    runs-on: zz-unknown\n    steps:\n      - run: echo ${{ github.nosuch }}\n  b:\n    uses: ./x.yml\n"
-					allFiles = append(allFiles, p)
-				}
-			}
-			// arguments
-			perm := rapid.Permutation(allFiles).Draw(rt, "order")
-			k := rapid.IntRange(2, min(len(perm), 10)).Draw(rt, "nargs")
-			c.Args = perm[:k]
-			for range c.Args {
-				c.Spell = append(c.Spell, rapid.SampledFrom([]string{"rel", "rel", "dot", "abs", "abs-dotdot", "rel-dotdot"}).Draw(rt, "spell"))
-			}
-			c.Cwd = rapid.SampledFrom(append([]string{"", ""}, c.Repos...)).Draw(rt, "cwd")
-			c.Procs = rapid.SampledFrom([]int{1, 2, 4, 16}).Draw(rt, "procs")
-			c.Repeats = 2
 			r.LastCase("C10/world", c)
 			key, msg, st := checkIsolation(c)
 			r.Eval()
